@@ -27,6 +27,7 @@ func genAll() {
 	genResolveSrc()
 	genResolverSrc()
 	genDecisionSrc()
+	genPuritySrc()
 	genFrag()
 	genPanics()
 	genRestoreSrc()
